@@ -161,7 +161,13 @@ func runZeroRow(m *mon, row zeroRow) {
 			} else {
 				res.Ev("g_merge_refused", 1)
 			}
-			nsRead(m, to, o.opts, class, defaultMaxIdx+1, func() string { return "reads after " + dd() })
+			// a destination that is a zero value itself and stayed one (nothing
+			// was merged) is read as a receiver, whatever the source was
+			rclass := class
+			if dst.name == "zero value" {
+				rclass = "zero-value-config-receiver"
+			}
+			nsRead(m, to, o.opts, rclass, defaultMaxIdx+1, func() string { return "reads after " + dd() })
 			// and once more: the destination now may hold what the source held
 			m.do(call{entry: "Merge", class: class, desc: func() string { return "second " + dd() }}, func() { to.Merge(row.mk(), o.opts...) })
 		}
